@@ -254,6 +254,10 @@ ARR_NAMES = ["island_ntree", "island_itreeadr", "map_itree2tree", "dof_island", 
              "island_iefcadr", "map_efc2iefc", "map_iefc2efc"]
 
 
+ISLAND_ERRORS = ("mj_island", "treeIterInit", "unionConstraintTrees", "mj_dsuMerge", "static bodies", "no tree found",
+                 "miscount", "self-incidence")
+
+
 def gen_model_cases(ctx):
     rng = ctx.rng
     thorough = ctx.tier == "thorough"
@@ -428,9 +432,16 @@ def check_models(ctx, exe, cases):
     coq_cases, idx = [], []
     nontriv = set()
     skipped = 0
+    nerr = 0
     for k, (c, line) in enumerate(zip(cases, lines)):
         if line.startswith("X"):
             skipped += 1
+            # an engine error raised by island discovery itself on a valid model is a failing input
+            if any(w in line for w in ISLAND_ERRORS) and nerr < 3:
+                nerr += 1
+                ctx.violation("impl_violation", c, expected="mj_island partitions the trees of this model",
+                              observed=line[:300], signature={"site": "mj_island", "error": True}, theorem="C17_rows",
+                              note="island discovery raised an engine error on a model whose constraint rows all have a dynamic tree")
             continue
         try:
             o = parse_model_output(line)
